@@ -9,6 +9,8 @@ CHECK = {
         "stdlib compress/gzip, compress/zlib, klauspost zstd, andybalholm brotli and golang/snappy are trusted to build compressed payloads and to decode them in the reference model (the libraries themselves, not the wrappers of internal/compression); a payload these decoders reject, also after having produced output, counts as undecodable",
         "content-coding names are case-insensitive (RFC 9110 section 8.4.1): the reference model treats gzip / GZIP / Gzip / gZIP alike, for every supported encoding and identity",
         "stage H (histories): what the trace says about a body must not depend on what the process traced before. Pairs (first, second) are traced back to back on one goroutine with GOMAXPROCS(1) and the collector off (debug.SetGCPercent(-1)) for the pair, so hand-off through process-wide state (package variables, sync.Pool) is deterministic; histories longer than two bodies and concurrent bodies are not enumerated (pairs of one shard do follow each other in one process, and a finding that needs more than the pair is reported with the shortest reproducing suffix of the shard's history)",
+        "stage M (late header edits): the owner of a live header map may edit it once the headers went out (http.ResponseWriter.Header() after WriteHeader or the first Write: net/http ignores such edits other than trailers; resp.Header once RoundTrip has returned; the handler's own *http.Request header while it reads the body); the wire is identical, so the trace must be too. Edits: delete / set (identity, gzip, zstd, an unknown name) / add a second value, for Connect-Content-Encoding, Grpc-Encoding, Content-Encoding, and delete / set Content-Type (json, the Connect, gRPC-Web and gRPC types), one edit per case, before the k-th Read/Write call of the body with the body delivered in one call, in two calls cut at every offset, or byte by byte (edit before every call and after the last). The client request side is not enumerated: a caller must not touch a request before the response body is closed, and then the trace is complete",
+        "stage P (HTTP/2 conn tracer): one exchange on stream 1 of a scripted connection (hand-built frames, fake net.Conn, fresh TracingHTTP2Conn per case, client bytes then server bytes), the same body in both directions; padding octets are zero (RFC 9113 section 6.1); pad lengths 0, 1, 7, 255; HEADERS priority = depends on stream 0, weight 16; concurrent streams, interleaved directions, flow control and malformed frames are C15's subject, not enumerated here",
         "stage H first bodies: complete compressed end-stream envelopes (Connect 0x03, gRPC-Web 0x81; texts of 29 / 40 bytes) in gzip, zstd, br, deflate, snappy whose payload is cut at every byte position (envelope length adjusted), has one byte altered at every position (+1, ^0xff; thorough also ^0x01, ^0x80), has a trailing byte or is in another encoding than negotiated (damaged zstd payloads that declare a decoded or window size above 16 MiB are left out: the zstd library allocates the declared size up front, up to 2 GiB for a 42-byte payload, which concerns the decompressor, not tracing); every truncation of a valid two-message stream under every ending on all four sides; valid bodies. Second bodies: valid two-message streams, encoding absent / identity / each supported one, compressed bit set and unset, Connect and gRPC-Web, client response and server response",
     ],
     "manifest": {
@@ -22,27 +24,39 @@ CHECK = {
                 "reference parse (data events with exact flags / declared length / consecutive indices, end-stream content decompressed iff bit 0, "
                 "single final body-end event with the final error, partial event with the byte count seen), with the events of the one-call "
                 "composition (chunking independence), and everything the application and its peer observe is compared byte for byte with a run without tracing. "
-                "Before that enumeration two cheap stages run in the same unit. Stage H (histories): every pair (first body, second body) with first from ~5.9k (quick) damaged / cut / failing / valid bodies "
+                "Before that enumeration four cheap stages run in the same unit. "
+                "Stage M (late header edits, ~87k cases quick / ~174k thorough): a two-message body (leading message + end-stream message, compressed bit set / unset; Connect, gRPC-Web, gRPC; encoding absent / identity / gzip / zstd, thorough also br / deflate / snappy) "
+                "on the client response, server response (explicit and implicit WriteHeader) and server request side, where the owner of the live header map (ResponseWriter.Header(), resp.Header, the handler's request header) deletes / sets / adds "
+                "Connect-Content-Encoding, Grpc-Encoding, Content-Encoding or Content-Type after the headers went out: before any body byte, at every byte offset of the body (two calls cut there, and byte by byte), and after the last byte; "
+                "oracle: events identical to the same case without the edit (the wire is identical), reference model computed from the headers that went out, transparency against the untraced run with the same edit. "
+                "Stage P (HTTP/2 conn tracer, ~80k exchanges quick / ~428k thorough): bodies (compressed / plain end-stream under Connect and gRPC-Web, gRPC messages, a non-enveloped body, every stream of <= 2 envelopes up to 11 bytes (thorough 13) of the alphabet, "
+                "every truncation of two end-stream bodies) carried through TracingHTTP2Conn on a server-side and a client-side conn in hand-built frames: two DATA frames cut at every offset (frames without data included) x pairs of "
+                "{unpadded, PADDED with pad length 0, 1, 7, 255} (quick: every padding in either position next to an unpadded frame or to the same padding; thorough: every pair, and three frames at every pair of offsets), one DATA frame per byte, END_STREAM on the last DATA frame / on an empty (also padded) DATA frame / on a trailers HEADERS block, "
+                "HEADERS frames plain / PADDED / PRIORITY / both / split over CONTINUATION frames, conn Read/Write calls whole or in 1 / 3 / 13-byte pieces; oracle: request and response body events identical to those of one unpadded DATA frame "
+                "and satisfying the same reference model, exactly one trace. Stage H (histories): every pair (first body, second body) with first from ~5.9k (quick) damaged / cut / failing / valid bodies "
                 "(compressed end-stream payloads of all five encodings cut and altered at every byte position, trailing garbage, wrong encoding; every truncation x ending x side of a valid stream) and second from 56 valid bodies "
                 "(all encodings, compressed bit set/unset, Connect and gRPC-Web, client response and server response) is traced back to back in one process state (one P, no GC in between): both bodies are judged "
                 "by the same reference model and untraced run, and the second body's events must equal those of the same body traced in the fresh process (history independence; ~331k pairs quick, ~2.2M thorough). "
                 "Stage S (shape): the encoding header value in lower / UPPER / Title / mIXED case for identity and every supported encoding, in Connect-Content-Encoding, Grpc-Encoding (gRPC-Web and gRPC) and Content-Encoding, "
-                "with compressed and uncompressed end-stream message, with and without a leading message, response and request sides, in <= 2 pieces (thorough 3) plus all-1-byte; plus every truncation of such streams for br, deflate, snappy "
-                "(~265k cases quick); oracle: the same reference model (content decompressed iff bit 0, names case-insensitive).",
-        "note": "Scripted fakes instead of sockets; bounds as stated; undefined flag/encoding combinations unconstrained; HTTP/2 frame tracing is C15.",
+                "with compressed and uncompressed end-stream message, with and without a leading message, response and request sides, in one call and byte by byte (the mIXED spelling, and in the thorough tier every spelling, also in <= 2 pieces, thorough 3); plus every truncation of such streams for br, deflate, snappy in <= 2 pieces (thorough 3) "
+                "(~133k cases quick); oracle: the same reference model (content decompressed iff bit 0, names case-insensitive).",
+        "note": "Scripted fakes instead of sockets; bounds as stated; undefined flag/encoding combinations unconstrained; HTTP/2 frame tracing as such (attribution to streams, header blocks, resets) is C15, stage P only checks that bodies come out of the frame layer unchanged.",
         "design_ref": "DESIGN.md §2.2, §4 C14",
     },
     "units": [
         {
             "name": "c14-enum", "pkg": TR,
-            "harness": ["tracer/c14_test.go", "tracer/c14_history_test.go"],
+            "harness": ["tracer/c14_test.go", "tracer/c14_history_test.go", "tracer/c14_mutate_test.go", "tracer/c14_h2_test.go"],
             "test": "^TestVerifC14$",
             "shards": {"quick": 16, "thorough": 16},
             # measured: 41.0M cases quick ~ 10 CPU-min, 311M cases thorough ~ 80 CPU-min (under contention); on 16 idle
             # cores about 35 s / 5 min. The soft budgets leave room for a loaded machine (exhaustive:false, exit 0 if hit).
-            # Stages H and S (c14_history_test.go) run first inside TestVerifC14: quick 331k pairs + 265k cases,
+            # Stages H and S (c14_history_test.go) run first inside TestVerifC14: quick 331k pairs + 133k cases (265k before round 4),
             # about 1.3 + 1.1 CPU-s per shard of 16 (about 40 CPU-s in all; thorough 11 + 12 CPU-s per shard), so a
             # budget hit in the heavy part cannot starve them. They lower GOGC to 100 for their duration (footprint).
+            # Stages M (c14_mutate_test.go) and P (c14_h2_test.go) run before H: quick 87k cases + 80k exchanges,
+            # about 0.3 + 0.4 CPU-s per shard of 16 (4.6 + 6.8 CPU-s in all; thorough 13 + 31 CPU-s in all). Stage S pays
+            # for most of it: in the quick tier only the mIXED spelling gets every two-piece composition (-8.5 CPU-s).
             "budget_s": {"quick": 120, "thorough": 1200},
             # allocation-heavy, tiny live heap: fewer GC cycles (performance only)
             "env": {"GOGC": "800"},
